@@ -25,7 +25,7 @@ RULE = (
     "return value must be the model's (new link of the requested class / one of the joining links and nothing "
     "created under dontdup / exactly the removed set for unlink(destroy=False) / None; TypeError and an "
     "unchanged snapshot for ill-typed ends; a raise and an unchanged snapshot for removing a non-member).  "
-    "unlink is also called with `destroy` omitted (default True) and link_* with `dontdup` omitted; every list / set the library hands out is scribbled on by the harness after reading.  Bulk creation of 7-130 parallel links at once.  End assignments are spelled lnk.v1 = x or (item access) lnk['v1'] = x; universes may carry restrictive laws.  Non-trivial = >= 4 state-changing calls including an end assignment, or an unlink / end assignment that "
+    "unlink is also called with `destroy` omitted (default True) or passed positionally and link_* with `dontdup` omitted; every list / set the library hands out is scribbled on by the harness after reading.  Bulk creation of 7-130 parallel links at once.  End assignments are spelled lnk.v1 = x or (item access) lnk['v1'] = x; universes may carry restrictive laws.  Non-trivial = >= 4 state-changing calls including an end assignment, or an unlink / end assignment that "
     "detaches a link from a vertex holding >= 2 links (order preservation exercised); distinct = distinct case value."
 )
 ASSUMPTIONS = [
